@@ -262,6 +262,36 @@ def ledger_route(ctx, i):
         check(ctx, plain_t, plain_r, kinds, dc, True, case)
 
 
+def refusal_sequence(ctx, i):
+    """numberify on a result the display context cannot quantize (a number of 10^12 or more: refused with
+    decimal.InvalidOperation, see the known finding), then on an ordinary result with the same currencies: the second one is
+    quantized as if nothing had happened."""
+    from decimal import InvalidOperation
+    from beancount.core import amount
+    from beanquery import numberify, Column
+    rng = ctx.rng('refusal', i)
+    dc = dcontext_for(rng)
+    cur = rng.choice(CURRENCIES)
+    desc = (Column('k', str), Column('a', amount.Amount))
+    huge = [('big', amount.Amount(D(rng.choice(['2000000000000', '1234567890123.456', '-9999999999999.5'])), cur)), ('small', amount.Amount(D('1234.5678'), cur))]
+    normal_desc, normal_rows, kinds = gen_table(rng)
+    case = {'sequence': f'numberify of an amount >= 10^12 {cur}, then of an ordinary table', 'rows': show_rows(normal_rows, 8)}
+    try:
+        numberify.numberify_results(desc, huge, dc.build())
+        ctx.count('obs.refusal_sequence.accepted')
+    except InvalidOperation as exc:
+        ctx.count('obs.refusal_sequence.refused')
+        ctx.violation('c17.amount_beyond_display_context_range', f'numberify_results with a formatter raised decimal.InvalidOperation for {huge[0][1]}', case)
+    except PostBroken:
+        pass
+    except Exception as exc:  # noqa: BLE001
+        ctx.violation('c17.exception', f'numberify raised {type(exc).__name__}: {exc}', case)
+        return
+    ctx.case(('refusal', cur, repr(normal_rows)), True)
+    check(ctx, normal_desc, normal_rows, kinds, dc, True, dict(case, phase='after a refused numberify'))
+    check(ctx, desc, [('small', amount.Amount(D('1234.5678'), cur)), ('other', amount.Amount(D('0.125'), cur))], ['str', 'amount'], dc, True, dict(case, phase='after a refused numberify'))
+
+
 RELOAD_STATEMENTS = [
     'SELECT account, sum(position) AS total GROUP BY account ORDER BY account',
     'SELECT date, account, position, weight WHERE number != 0 ORDER BY date, account',
@@ -367,6 +397,8 @@ def run(ctx):
         ledger_route(ctx, i)
     for i in range(ctx.pick(3, 40)):
         shell_reload_route(ctx, i)
+    for i in range(ctx.pick(6, 80)):
+        refusal_sequence(ctx, i)
     ctx.count('obs.contract_evaluations', _evals[0])
 
 
